@@ -24,6 +24,10 @@ UNITS = ["kpc", "Mpc", "rad", "deg", "arcmin", "arcsec", "kpc/h", "Mpc/h"]
 def resolve_cosmology(name):
     import astropy.cosmology
 
+    if name and name.startswith("flcdm"):
+        # an unnamed model (cosmology.name is None), different in every case
+        _, h0, om0 = name.split(":")
+        return astropy.cosmology.FlatLambdaCDM(H0=float(h0), Om0=float(om0))
     return getattr(astropy.cosmology, name or "Planck15")
 
 
@@ -41,7 +45,7 @@ def gen_case(rng, seed, idx):
         duplicates=bool(rng.random() < 0.15),
         randoms=str(rng.choice(["unk", "ref", "both"])),
         count_rr=bool(rng.random() < 0.6),
-        cosmology=str(rng.choice(["Planck15", "WMAP9"])),
+        cosmology=str(rng.choice(["Planck15", "WMAP9", f"flcdm:{rng.uniform(55, 80):.2f}:{rng.uniform(0.2, 0.45):.3f}"])),
     )
 
 
@@ -218,7 +222,8 @@ class C01(Check):
             out.append(result(VIOLATED, mechanism=mech, detail=dict(case=case, **detail), nontrivial=False))
 
         cfg = Configuration.create(rmin=rmin, rmax=rmax, unit=case["unit"], rweight=rweight, resolution=resolution,
-                                   edges=edges.tolist(), closed=case["closed"], cosmology=case["cosmology"])
+                                   edges=edges.tolist(), closed=case["closed"],
+                                   cosmology=cosmo if case["cosmology"].startswith("flcdm") else case["cosmology"])
         centre_obj = cats.coords_obj(centres)
 
         shared = dict(xyz=None)
@@ -247,11 +252,20 @@ class C01(Check):
             return cats.create(tmp / name, cats.table(ra, dec, w=w, z=z), centers=centre_obj)
 
         wsel = case["weights"]
+        warm = None
+        if case["cosmology"].startswith("flcdm"):
+            # a warm-up measurement with the same binning and scales but a very different (equally unnamed)
+            # cosmology runs first in this process: nothing of it may leak into the measurement judged below
+            import astropy.cosmology
+
+            warm = cfg.modify(cosmology=astropy.cosmology.FlatLambdaCDM(H0=45.0, Om0=0.6))
         with Scratch("c01") as tmp:
             try:
                 if case["auto"]:
                     data = make(tmp, "data", "ref", True, wsel in ("first", "both"))
                     rand = make(tmp, "rand", "rand", True, wsel in ("second", "both"))
+                    if warm is not None:
+                        yaw.autocorrelate(warm, data, rand, count_rr=False, max_workers=1)
                     cfs = yaw.autocorrelate(cfg, data, rand, count_rr=case["count_rr"], max_workers=1)
                     kinds = {"dd": (data, data, True, True), "dr": (data, rand, False, True)}
                     if case["count_rr"]:
@@ -261,6 +275,8 @@ class C01(Check):
                     unk = make(tmp, "unk", "unk", bool(rng.random() < 0.5), wsel in ("second", "both"))
                     rr = make(tmp, "rr", "rand", True, bool(rng.random() < 0.3)) if case["randoms"] in ("ref", "both") else None
                     ur = make(tmp, "ur", "rand", False, bool(rng.random() < 0.3)) if case["randoms"] in ("unk", "both") else None
+                    if warm is not None:
+                        yaw.crosscorrelate(warm, ref, unk, ref_rand=rr, unk_rand=ur, max_workers=1)
                     cfs = yaw.crosscorrelate(cfg, ref, unk, ref_rand=rr, unk_rand=ur, max_workers=1)
                     kinds = {"dd": (ref, unk, False, False)}
                     if ur is not None:
